@@ -104,6 +104,11 @@ REGISTRY['C16'] = numeric('C16', 'c16_average.cpp', nq=1500, nt=100000, groups_q
                           rule='clouds of 1..50 points C (+) d_i around a centre C drawn from all rotation strata (incl. within 1e-12 of pi) with coordinates up to 1e3, radius log-uniform in [1e-6,0.5] (0.5 every fifth case), identical points every ninth case; '
                                'four routines; stationarity measured with the model logarithm; random permutation; left/right translations by random elements; ' + RULE_STRATA, assumptions=ASSUME_FP)
 
+REGISTRY['C18'] = numeric('C18', 'c18_approx.cpp', nq=20000, nt=1000000,
+                          rule='elements with coordinates from 0 and 1e-8 up to 1e9 (float: 1e4) and SGal3 times up to 1e3: reflexivity of isApprox/== (three eps), equality of q and -q; pairs Y = X (+) d with ||d||_inf = eps/100 and 100 eps for eps in {1e-12..1e-2}, '
+                               'judged only when eps >= 1e4*u*max|coordinate|*max|time| (otherwise counted unresolvable); tangents with norms 1e-12..1e9: identical, against zero at eps/10 and 10 eps, relative at (1 +- eps/10) and (1 +- 10 eps); ' + RULE_STRATA,
+                          assumptions=ASSUME_FP + ['X == X relies on bit-exact cancellation of X^-1*X, which holds only under the baseline FP model (no FMA contraction)'])
+
 def c17_spec():
     groups = ['SE2', 'SO3', 'SE3', 'SGAL3', 'R3', 'BT1']
     def bins(tier):
@@ -321,6 +326,9 @@ MANIFEST_META = {
     'C17': dict(engine='child-per-case enumerator', design_ref='DESIGN.md 4/C17', technique='exhaustive enumeration of (N,degree,k,closed) with one sanitized child process per configuration under a watchdog; reference De Casteljau on the model',
                 text='Every configuration of the stated box runs decasteljau in its own forked child under ASan+UBSan+_GLIBCXX_ASSERTIONS; non-termination (watchdog, after one re-run), aborts, out-of-range indices and sanitizer reports are violations; size, window ends and every curve point are compared with a reference evaluation on the long-double model; inputs that must raise are enumerated too.',
                 note='Exhaustive over the box only (quick N<=10,k<=2; thorough N<=16,k<=4); trajectories are 1-3 random draws per configuration. ' + NOTE_NUM),
+    'C18': dict(engine='ref-model differential monitor', design_ref='DESIGN.md 4/C18', technique='runtime monitor of the tolerance relation: reflexivity at large coordinates, double cover, controlled tangent distance around eps',
+                text='Reflexivity of isApprox and == is observed on elements with coordinates up to 1e9 and on the pair (q,-q); Y = X (+) d with ||d||_inf = eps/100 must compare equal and with 100 eps unequal, in both argument orders, for eps from 1e-12 to 1e-2 wherever the difference is resolvable in the scalar; tangent isApprox is checked as an absolute test against zero and a relative test otherwise for norms 1e-12..1e9.',
+                note=NOTE_NUM + ' Pairs whose tangent distance is not resolvable in the scalar type (eps < 1e4*u*|coordinates|) are counted, not judged.'),
     'C19': dict(engine='api-matrix builder', design_ref='DESIGN.md 4/C19', technique='exhaustive generated API matrix: each cell compiled, executed under ASan/UBSan, digest compared bit-wise with the owning instantiation',
                 text='The finite matrix {126 documented entries} x {owning, Map, Map<const>} x {12 (quick) / 17 (thorough) groups incl. bundles} x {float,double} is enumerated completely; a cell that cannot be instantiated is a violation attributed through the compiler instantiation trace; every other cell is executed and must reproduce the owning cell bit for bit.',
                 note='The instantiation half is observed at build time (the one place where the deciding event is not an execution, see DESIGN.md 4/C19). Only g++ 12 is used.'),
